@@ -82,7 +82,7 @@ Res(s, out, rets) == [s |-> s, out |-> out, rets |-> rets, deliv |-> NoDeliv]
 
 InitState(cfg) ==
     [cfg |-> cfg, st |-> "disconnected", alive |-> TRUE, werr |-> "", endDue |-> -1, ended |-> FALSE,
-     reg |-> EmptyFn, hnd |-> EmptyFn, seq |-> 1, alloc |-> EmptyFn, tx |-> EmptyFn, rtx |-> EmptyFn, ty |-> EmptyFn,
+     reg |-> EmptyFn, hnd |-> EmptyFn, seq |-> 1, alloc |-> EmptyFn, gwused |-> {}, tx |-> EmptyFn, rtx |-> EmptyFn, ty |-> EmptyFn,
      calls |-> EmptyFn, kaDue |-> -1, gap |-> 0, ncall |-> 0, subs |-> {}, kaGhost |-> FALSE, kaFail |-> "",
      \* KaSync deviation only: the keep-alive loop is inside Ping(); occupancy of
      \* stateChangeCh and who is blocked in notifyStateChange
@@ -308,7 +308,10 @@ DoPublishIn(s, p) ==
          [] p.qos = 2 ->
               IF "SharedStore" \in Dev /\ p.mid \in DOMAIN s.tx
               THEN Res(s, <<>>, {})      \* unexpected transaction type: dropped
-              ELSE Res([s EXCEPT !.rtx = Upd(@, p.mid, [tit |-> p.tit, tid |-> p.tid, tl |-> p.tl, pl |-> p.data])],
+              \* gwused (ghost): message IDs the gateway has used for exchanges of its own - a client exchange with
+              \* such an ID has lived next to an exchange of the other direction with a coinciding ID (C06)
+              ELSE Res([s EXCEPT !.rtx = Upd(@, p.mid, [tit |-> p.tit, tid |-> p.tid, tl |-> p.tl, pl |-> p.data]),
+                                 !.gwused = @ \cup {p.mid}],
                        <<[P0 EXCEPT !.t = "PUBREC", !.mid = p.mid]>>, {})
          [] OTHER -> Die(Res(s, <<>>, {}), "proto")
 
